@@ -11,11 +11,12 @@ import (
 )
 
 // Compressed frame (ClickHouse CompressedWriteBuffer):
-//   16 bytes CityHash128 (v1.0.2) of everything that follows
-//    1 byte  method (0x02 none, 0x82 LZ4, 0x90 ZSTD)
-//    4 bytes LE size of compressed data + 9
-//    4 bytes LE size of uncompressed data
-//    compressed data
+//
+//	16 bytes CityHash128 (v1.0.2) of everything that follows
+//	 1 byte  method (0x02 none, 0x82 LZ4, 0x90 ZSTD)
+//	 4 bytes LE size of compressed data + 9
+//	 4 bytes LE size of uncompressed data
+//	 compressed data
 const (
 	MethodNone byte = 0x02
 	MethodLZ4  byte = 0x82
